@@ -165,7 +165,10 @@ def group_by_until_(
                 observer.on_error(ex)
 
             def on_completed() -> None:
-                for wrt in writers.values():
+                # Completing a writer can expire its group (a duration derived
+                # from the group completes with it), which removes it from
+                # `writers`: iterate over a snapshot.
+                for wrt in list(writers.values()):
                     wrt.on_completed()
 
                 observer.on_completed()
